@@ -20,7 +20,20 @@ type vConn struct {
 	closed int
 }
 
-func (c *vConn) Close() error { c.closed++; return nil }
+// Closing a socket takes a moment (other goroutines run meanwhile); the connection counts as
+// open until the close has completed.
+func (c *vConn) Close() error {
+	verifYield()
+	if c.closed == 0 {
+		vInnerOpen--
+	}
+	c.closed++
+	return nil
+}
+
+// vInnerOpen: connections taken from the inner listener and not yet closed; vInnerCap: the cap
+// they are checked against at every accept (0: not checked)
+var vInnerOpen, vInnerCap int
 
 // a read that fails while the connection stays open (net/http aborts its background read with a
 // past deadline after every request on a keep-alive connection)
@@ -47,6 +60,10 @@ func (l *vListener) Accept() (net.Conn, error) {
 		return nil, vTempErr{}
 	}
 	l.accepted++
+	vInnerOpen++
+	if vInnerCap > 0 {
+		verifAssert(vInnerOpen <= vInnerCap, "accepted-and-still-open-connections-never-exceed-the-cap")
+	}
 	return &vConn{}, nil
 }
 func (l *vListener) Close() error   { l.closed = true; return nil }
@@ -70,6 +87,7 @@ func verifC17_Accept() {
 	capacity := verifChoose("cap", 2) + 1
 	l := NewLimitListener(&vListener{}, uint32(capacity))
 	vOpen = 0
+	vInnerOpen, vInnerCap = 0, capacity
 	clients := verifBound("clients")
 	var wg sync.WaitGroup
 	for i := 0; i < clients; i++ {
@@ -98,12 +116,14 @@ func verifC17_Accept() {
 		}()
 	}
 	wg.Wait()
+	vInnerCap = 0
 	verifAssert(vOpen == 0, "all-closed")
 	verifAssert(vAvailable(l) == int64(capacity), "released-capacity-is-usable-again-no-lost-or-extra-permits")
 }
 
 // verifC17_Resize: a run-time change of the cap with connections open.
 func verifC17_Resize() {
+	vInnerOpen, vInnerCap = 0, 0
 	cap0 := verifChoose("cap0", 2) + 1
 	l := NewLimitListener(&vListener{}, uint32(cap0))
 	open := verifChoose("open", cap0+1)
@@ -183,6 +203,7 @@ func verifC17_Resize() {
 // verifC17_ConcurrentResize: two cap changes racing with accepts and closes; when
 // everything has settled the free capacity equals the last cap minus the open connections.
 func verifC17_ConcurrentResize() {
+	vInnerOpen, vInnerCap = 0, 0
 	l := NewLimitListener(&vListener{}, 1)
 	n1 := verifChoose("cap1", 3) + 1
 	n2 := verifChoose("cap2", 3) + 1
@@ -211,6 +232,7 @@ func verifC17_ConcurrentResize() {
 // admitted as soon as there is room under it, and once everything has closed the free
 // capacity is exactly the last cap.
 func verifC17_ResizeTwice() {
+	vInnerOpen, vInnerCap = 0, 0
 	cap0 := verifChoose("cap0", 3) + 1
 	l := NewLimitListener(&vListener{}, uint32(cap0))
 	open := verifChoose("open", cap0+1)
@@ -269,6 +291,7 @@ func verifC17_ResizeTwice() {
 // number of open connections never exceeds the cap, and when all are closed the whole cap is
 // free again.
 func verifC17_AcceptErrors() {
+	vInnerOpen, vInnerCap = 0, 0
 	capacity := verifChoose("cap", 2) + 1
 	inner := &vListener{failNext: verifChoose("temporaryErrors", 3)}
 	l := NewLimitListener(inner, uint32(capacity))
